@@ -423,7 +423,7 @@ def _make_types_index(nodes_):
                 included.add(node_.name)
                 for included_name, included_type in _make_types_index(node_.members):
                     yield included_name, included_type
-        else:
+        elif not isinstance(node_, Constant):
             yield node_.name, node_
 
 
